@@ -236,6 +236,8 @@ class NumpyModel:
                 return sum(1 for x in base if _eq(x, args[0]))
             raise Unsupported(f"tuple method {name}", node)
         if isinstance(base, dict):
+            if name in ("get", "pop", "setdefault") and args and isinstance(args[0], Opaque):
+                return I.opaque(f"dictionary look-up with a key the analysis cannot evaluate ({args[0].reason})", node)
             if name == "get":
                 k = _h(args[0])
                 if k not in base:
@@ -366,6 +368,8 @@ class NumpyModel:
             return I.opaque("ndarray.sort on symbolic data", node)
         if name == "setflags":
             return None          # write protection: no effect on values
+        if name == "tobytes":
+            return ("bytes", keyof(a))      # a hashable value that is equal exactly when shape and cells are equal
         if name == "astype" and False:
             pass
         f = getattr(self, "np_" + name, None)
@@ -383,6 +387,8 @@ class NumpyModel:
         f = getattr(self, "x_" + path.replace(".", "_"), None)
         if f is not None:
             return f(node, *args, **kwargs)
+        if root == "numpy" and args and isinstance(args[0], SymArr) and last in ("cumsum", "copy", "sum", "ravel", "flatten"):
+            return self.call_method(args[0], last, list(args[1:]), kwargs, node)     # numpy.f(a, ...) == a.f(...)
         if root in ("numpy", "numpy.linalg", "scipy.linalg", "numpy.ma", "numpy.random", "scipy.special"):
             f = getattr(self, "np_" + last, None)
             if f is not None:
@@ -427,6 +433,20 @@ class NumpyModel:
             return Native("wraps", lambda I_, f_: f_)
         if root == "dataclasses" and last == "field":
             return ("__field__", dict(kwargs))
+        if root in ("os.path", "posixpath") and all(isinstance(a, str) for a in args) and not kwargs:
+            import posixpath as _pp
+            if last in ("abspath", "normpath", "realpath", "expanduser", "normcase"):
+                return _pp.normpath(args[0]) if last != "expanduser" else args[0]      # the analysed paths are absolute already
+            if last in ("basename", "dirname", "join", "splitext", "split", "isabs"):
+                r_ = getattr(_pp, last)(*args)
+                return list(r_) if False else r_
+        if root == "dataclasses" and last == "fields":
+            obj = args[0]
+            cv = obj.cls if isinstance(obj, Record) else obj
+            from .interp import Env as _Env
+            return tuple(Record(None, {"name": f[0], "type": I.ev(f[1], _Env(f[3].module)),
+                                       "default": I.ev(f[2], _Env(f[3].module)) if f[2] is not None else UNINIT}, label="Field")
+                         for f in I.dataclass_fields(cv))
         if root == "dataclasses" and last == "asdict":
             rec = args[0]
             out = {}
@@ -589,6 +609,8 @@ class NumpyModel:
     def _minmax(self, node, xs, f):
         if len(xs) == 1:
             xs = self.I.iterate(xs[0], node)
+        if any(isinstance(x, SymIdx) for x in xs):
+            return SymIdx(f.__name__, tuple(xs))       # a data-dependent index bounded by something: still a data-dependent index
         try:
             return f(xs, key=_sortkey)
         except TypeError:
@@ -958,6 +980,12 @@ class NumpyModel:
         return vec(lambda u: alg.Fn("float32", cell(u)), x) if isinstance(x, np.ndarray) else alg.Fn("float32", cell(x))
 
     np_float16 = np_float32
+
+    def np_ascontiguousarray(self, a, dtype=None, **kw):
+        return self.np_asarray(a)
+
+    def np_asfortranarray(self, a, dtype=None, **kw):
+        return self.np_asarray(a)
 
     def np_floor(self, x):
         return self._round_fn("floor", x)
